@@ -210,11 +210,20 @@ func (p *parser) expr(minPrec int) (Expr, error) {
 			if n.kind != "id" {
 				return nil, fmt.Errorf("quantifier: expected variable name")
 			}
+			star := ""
+			if p.accept("*") {
+				star = "*"
+			}
 			t := p.next()
 			if t.kind != "id" {
 				return nil, fmt.Errorf("quantifier: expected type after %s", n.text)
 			}
-			vars = append(vars, QVar{n.text, t.text})
+			tn := t.text
+			for p.accept(".") {
+				t2 := p.next()
+				tn += "." + t2.text
+			}
+			vars = append(vars, QVar{n.text, star + tn})
 			if !p.accept(",") {
 				break
 			}
